@@ -1,4 +1,5 @@
 import Cellml.Engine.Num
+import Cellml.Engine.Logger
 open Cellml
 
 /-- line-protocol loop: one answer per input line -/
@@ -8,6 +9,15 @@ partial def loop (h : IO.FS.Stream) (out : IO.FS.Stream) (f : String → String)
   let l := (line.dropEndWhile (fun c => c = '\n' || c = '\r')).toString
   out.putStrLn (f l)
   loop h out f
+
+/-- stateful line loop -/
+partial def loopS {σ : Type} (h : IO.FS.Stream) (out : IO.FS.Stream) (f : σ → String → σ × String) (st : σ) : IO Unit := do
+  let line ← h.getLine
+  if line.isEmpty then return ()
+  let l := (line.dropEndWhile (fun c => c = '\n' || c = '\r')).toString
+  let (st', o) := f st l
+  out.putStrLn o
+  loopS h out f st'
 
 def numLine (l : String) : String :=
   match Wire.fromHex l.trimAscii.toString with
@@ -19,6 +29,7 @@ def main (args : List String) : IO UInt32 := do
   let stdout ← IO.getStdout
   match args with
   | ["num"] => loop stdin stdout numLine; return 0
+  | ["logger"] => loopS stdin stdout Engine.Logger.stepLine ([] : Engine.Logger.Loggers); return 0
   | ["num-enum", n] =>
     let n := n.toNat!
     for k in List.range (n + 1) do
